@@ -288,6 +288,7 @@ impl C03 {
 
 impl UnitRunner for C03 {
   fn unit(&mut self, _payload: &str, unit: u64, out: &mut WorkerOut) {
+    if _payload == "contexts" { return self.context_unit(unit, out); }
     if unit >= self.main_units() { return self.index_kind_unit(unit - self.main_units(), out); }
     let lo = unit * CHUNK;
     let hi = (lo + CHUNK).min(self.n_exprs());
@@ -393,6 +394,65 @@ impl UnitRunner for C03 {
   }
 }
 
+/// index templates over the local names i, j, k (scalars): every per-dimension form in either position
+pub const CTX_FORMS: [&str; 24] = ["i", "i..=j", "i..j", "[i j]", "[j i j]", "i, k", "i, :", ":, k", "i..=j, k", "k, i..=j", "i..=j, i..=j", "[i j], k", "k, [i j]", "[i j], [j i]", "i..=j, :", ":, i..=j", "[j i], :", ":, [i j]", "[i j], i..=j", "i..=j, [j i]", "i..j, k", "k, i..j", "i + 1, k", "k, j - 1"];
+
+impl C03 {
+  /// The same reads with the index values bound locally (function parameters, match-arm bindings, comprehension generators) and shadowed by
+  /// globals of other values: each must return what the read returns with global index variables.
+  fn context_unit(&mut self, unit: u64, out: &mut WorkerOut) {
+    let shapes: [(usize, usize); 4] = [(3, 4), (1, 5), (5, 1), (4, 3)];
+    let kinds = ["f64", "u8"];
+    let (si, ki) = ((unit % 4) as usize, (unit / 4) as usize);
+    if ki >= kinds.len() { return; }
+    let (r, c) = shapes[si];
+    let kind = kinds[ki];
+    let vals: Vec<String> = (0..r * c).map(|n| format!("{}", 10 + n)).collect();
+    let mut s = Session::new();
+    if !s.run(&super::c01::define_matrix("x", kind, &vals, r, c)).is_value() { out.count("context_setup_rejected"); return; }
+    // shadows: globals named like the local index names, holding other (valid) positions
+    for d in ["i := 1", "j := 1", "k := 1"] { s.run(d); }
+    let mut n = 0usize;
+    for (iv, jv, kv) in [(1usize, 2usize, 2usize), (2, 3, 1), (2, 2, 3), (1, 3, 4), (3, 5, 1), (0, 2, 1), (2, 6, 2)] {
+      n += 1;
+      let (gi, gj, gk) = (format!("gi{}", n), format!("gj{}", n), format!("gk{}", n));
+      for d in [format!("{} := {}", gi, iv), format!("{} := {}", gj, jv), format!("{} := {}", gk, kv)] { s.run(&d); }
+      for (fi, form) in CTX_FORMS.iter().enumerate() {
+        let uses = |name: &str| form.split(|ch: char| !ch.is_alphanumeric()).any(|t| t == name);
+        let top: String = form.split_inclusive(|ch: char| !ch.is_alphanumeric()).map(|tok| { let (w, rest) = match tok.char_indices().last() { Some((p, ch)) if !ch.is_alphanumeric() => (&tok[..p], &tok[p..]), _ => (tok, "") }; format!("{}{}", match w { "i" => gi.as_str(), "j" => gj.as_str(), "k" => gk.as_str(), o => o }, rest) }).collect();
+        out.evaluations += 1;
+        let uniq = n * 100 + fi;
+        let base = s.run(&format!("lcb{} := x[{}]", uniq, top));
+        let mut vars = vec![];
+        if uses("i") { vars.push(crate::ctx::lv("i", &gi, "f64")); }
+        if uses("j") { vars.push(crate::ctx::lv("j", &gj, "f64")); }
+        if uses("k") { vars.push(crate::ctx::lv("k", &gk, "f64")); }
+        let two_d = form.contains(',') && !form.starts_with('[') || form.matches(',').count() >= 1 && form.contains("],") || form.contains(", [") || form.contains(", :") || form.starts_with(":,");
+        let result_is_matrix = form.contains("..") || form.contains('[') || form.contains(':');
+        let out_kind = if result_is_matrix { format!("[{}]", kind) } else { kind.to_string() };
+        // contexts that see the global x (match arm, comprehensions) ...
+        let mut res = crate::ctx::eval_in_contexts(&mut s, uniq, &vars, &format!("x[{}]", form), &out_kind, "x[1]", true, false);
+        res.retain(|(c, _, _)| *c != crate::ctx::CONTEXTS[0]);
+        // ... and a function, which only sees its parameters: x is passed too
+        let mut fvars = vec![crate::ctx::lv("m", "x", &format!("[{}]", kind))];
+        fvars.extend(vars.iter().map(|v| crate::ctx::lv(&v.local, &v.global, &v.kind)));
+        let fres = crate::ctx::eval_in_contexts(&mut s, uniq + 50000, &fvars, &format!("m[{}]", form), &out_kind, "x[1]", false, false);
+        res.extend(fres.into_iter().filter(|(c, _, _)| *c == crate::ctx::CONTEXTS[0]));
+        let _ = two_d;
+        for (ctx, text, o) in res {
+          out.evaluations += 1;
+          // a scalar fallback arm next to a matrix-valued arm is rejected by the arm-kind diagnostics: the match context needs a like-kinded fallback
+          let case = format!("x<[{}]>: {}x{} holding 10..; i := 1; j := 1; k := 1 (globals); {} := {}; {} := {}; {} := {}; {}   versus r := x[{}]", kind, r, c, gi, iv, gj, jv, gk, kv, text, top);
+          match crate::ctx::differs(&base, ctx, &o) {
+            None => { if base.is_value() { out.nontrivial += 1; } out.count(&format!("context_agrees:{}", ctx)); }
+            Some(d) => out.fail(format!("C03|local-context-differs|{}:x[{}]@{}", ctx, form, storage_class((r, c))), case, d),
+          }
+        }
+      }
+    }
+  }
+}
+
 impl Check for C03 {
   fn id(&self) -> &'static str { "C03" }
   fn level(&self) -> &'static str { "exploration" }
@@ -410,7 +470,9 @@ impl Check for C03 {
       "result orientation of one-dimensional vector/range/mask reads is not fixed by the documentation: any vector orientation with the right elements in order is accepted".into(),
     ];
     rep.cov("bounds", json!({"index_expressions": n, "shapes": shapes(tier), "chunk": CHUNK}));
-    drive_ranges(cfg, rep, range_jobs("", units + self.kind_units(), 1));
+    let mut jobs = range_jobs("", units + self.kind_units(), 1);
+    jobs.extend(range_jobs("contexts", 8, 1));
+    drive_ranges(cfg, rep, jobs);
     let ikr = rep.out.sets.get("index_kinds_reached").map(|s| s.len()).unwrap_or(0);
     if ikr < 100 { rep.vacuity.push(format!("only {} (index kind, spelling, form) combinations agreed with a value or an error", ikr)); }
     rep.cov("index_kind_family", json!({"kinds": INDEX_KINDS, "units": self.kind_units(), "oracle": "typed-variable and suffixed-literal index values must give the outcome of the plain literal index (judged by the main family)"}));
